@@ -599,7 +599,10 @@ inductive Op where
   | dropMgr (m : Nat)                                   -- the object is lost without clean-up (client restart)
   | addServer (m s : Nat)
   | removeServer (m s : Nat)
-  | removeAll (m : Nat)                                 -- remove_all_servers() and __exit__
+  | removeAll (m : Nat)                                 -- remove_all_servers(), and __exit__(exc_type, exc_value, tb)
+                                                        -- for EVERY exc_type (normal end of the `with` block or any
+                                                        -- exception raised inside it): `self.remove_all_servers();
+                                                        -- return False` — the exception never influences the clean-up
   | addDest (m s : Nat) (a : DestArgs)
   | addFilter (m s : Nat) (owned : Bool) (fid name : Option Str)
   | addSubs (m s : Nat) (f : Path) (sel : DestSel) (owned : Bool)
